@@ -92,6 +92,8 @@ def extract(g, spec):
             f2 = g.fn(path)
             w, c, e = summ.summarize_blocks(f2, f2.reach, 1, depth=spec.get('depth', 2))
             out[path] = {'writes': sorted(w), 'calls': sorted(c), 'errs': sorted(e)}
+            if spec.get('reads'):
+                out[path]['reads'] = sorted(summ.field_reads(f2, f2.reach, 1))
         return out
     ef = E.Eff(g, extra_atoms=spec.get('extra_atoms'))
     if kind == 'fneff':
